@@ -520,6 +520,11 @@ pub fn guard_holds(prop: &str, guard: &str, case: &Case, fail: &Fail, rejudge: &
         "short_match_without_end_anchor" => {
             case.cfg.has(BIT_NO_END) && fail.kind == Kind::Span && fail.what.contains("gives Some((0, ")
         }
+        // D16: the default (meta) engine of the pinned regex crate returns a match that is not the leftmost one although
+        // its own reference engine finds the whole test case at offset 0 (engine defect, not a property of the pattern)
+        "regex_meta_engine_not_leftmost" => {
+            fail.kind == Kind::Span && fail.what.contains("the reference engine (PikeVM) of the same crate finds the whole test case")
+        }
         // D14: letters cased after Unicode 15: lower-cased by std, not folded by regex-syntax
         "lowercased_but_not_folded" => {
             if !(case.cfg.has(BIT_CI) && matches!(fail.kind, Kind::Miss | Kind::Over) && case.tcs.iter().any(|t| has_not_folded(t))) {
